@@ -156,7 +156,7 @@ func (pm *pairMon) versionRows(b *simnode.Block, cols []string) []string {
 		return v
 	}
 	var rs []string
-	for _, r := range model.ProjectBlock(pm.decl, pm.src.Name, pm.src.ChainID, b, nil) {
+	for _, r := range model.ProjectBlock(pm.decl, pm.src.Name, pm.src.ChainID, b, pm.look) {
 		rs = append(rs, model.CanonRow(r, cols))
 	}
 	sort.Strings(rs)
@@ -199,7 +199,15 @@ func (pm *pairMon) invariant(ps *pairState, first uint64, where string, detail m
 			ok = false
 		}
 		if first > 0 && n < first {
-			c.Violate(pm.kp+"rows-before-first-block", merge(detail, map[string]any{"where": where, "block": n, "first": first}), "%s: rows of block %d before the first indexed block %d", where, n, first)
+			var cs []uint64
+			for _, cr := range ps.cursors {
+				cs = append(cs, cr.num)
+			}
+			var bs []uint64
+			for b := range ps.byBlock {
+				bs = append(bs, b)
+			}
+			c.Violate(pm.kp+"rows-before-first-block", merge(detail, map[string]any{"where": where, "block": n, "first": first, "positions": cs, "blocks_with_rows": bs}), "%s: rows of block %d before the first indexed block %d", where, n, first)
 			ok = false
 		}
 	}
